@@ -5,12 +5,12 @@
    actually did is judged afterwards by Trace_Stream. *)
 EXTENDS MC_Stream, Json
 CONSTANT Depth
-VARIABLE hist
+VARIABLES hist, nsteps
 Dir == DirOf(SID)
 GenCfg == [cli |-> Side(Win, CWin), srv |-> Side(Win, CWin)]
-GenInit == MCInit /\ hist = <<GenCfg, <<"hs", "both", FALSE>>, <<"open", S, Dir>>>>
+GenInit == MCInit /\ nsteps = 0 /\ hist = <<GenCfg, <<"hs", "both", FALSE>>, <<"open", S, Dir>>>>
 H(x) == hist' = Append(hist, x)
-Steps == Len(hist) - 3
+Steps == nsteps          \* environment steps taken (accept+read is one step)
 \* what a packet with `cap` bytes of room is expected to carry: the lowest sendable range, cut to cap minus the frame header
 LowestSendable == CHOOSE i \in 0..(written - 1) : Sendable(i) /\ \A j \in 0..(i - 1) : ~Sendable(j)
 RunFrom(i) == CHOOSE n \in 1..(written - i) : (\A j \in i .. (i + n - 1) : Sendable(j)) /\ (i + n = written \/ ~Sendable(i + n))
@@ -26,6 +26,7 @@ GPack(cap) ==
 DeliveredBefore(i) == Cardinality({j \in 1..(i - 1) : net[j].delivered})
 GenNext ==
   /\ Steps < Depth
+  /\ nsteps' = nsteps + 1
   /\ \/ \E n \in {1, 2} : AWrite(n) /\ H(<<"write", S, SID, n>>)
      \/ AShutdown /\ H(<<"shutdown", S, SID>>)
      \/ \E cap \in {4, 5, 1200} : GPack(cap) /\ H(<<"pack", S, cap>>)
